@@ -6,8 +6,22 @@
 -/
 import Genshi.Lemmas.ReaderDocTop
 import Genshi.Lemmas.ReaderXmlView
+import Genshi.Lemmas.OutputNoCR
 namespace Genshi.Reader
 open Genshi Genshi.Escape Genshi.Output
+
+/-- no carriage return in the DOCTYPE / XML declaration fields -/
+def dtNcr : Option DocTypeT → Bool
+  | some x => ncr x.1 && oncr x.2.1 && oncr x.2.2
+  | none => true
+
+def declNcr : Option DeclT → Bool
+  | some x => ncr x.1 && oncr x.2.1
+  | none => true
+
+/-- no carriage return anywhere in the document (with one, XML line-end normalisation changes the text) -/
+def docNcr (u : Str) (dopt : Option DocTypeT) (decl : Option DeclT) (dt : Option DocTypeT) (body : List Node) : Bool :=
+  ncr u && forestNcr body && declNcr decl && dtNcr dopt && dtNcr dt
 
 /-! ### `assemble` with a prolog in front -/
 
